@@ -6,15 +6,15 @@ for d in mutants/*/; do
   id=$(basename $d)
   for m in $d*.diff; do
     out=$(tools/mutate.sh $id $m quick 2>&1)
-    rc=$(echo "$out" | grep -o "exit [0-9]*" | head -1)
-    key=$(echo "$out" | grep -m1 "violation:" | sed 's/.*violation: //' | cut -d'|' -f1-3 | cut -c1-110)
+    rc=$(echo "$out" | grep -a -o "exit [0-9]*" | head -1)
+    key=$(echo "$out" | grep -a -m1 "violation:" | sed 's/.*violation: //' | cut -d'|' -f1-3 | cut -c1-110)
     echo "$id $(basename $m .diff) $rc | $key"
   done
 done
 for p in seeded/*/*/patch.diff; do
   id=$(echo $p | cut -d/ -f2); name=$(echo $p | cut -d/ -f3)
   out=$(tools/mutate.sh $id $p quick 2>&1)
-  rc=$(echo "$out" | grep -o "exit [0-9]*" | head -1)
-  key=$(echo "$out" | grep -m1 "violation:" | sed 's/.*violation: //' | cut -d'|' -f1-3 | cut -c1-110)
+  rc=$(echo "$out" | grep -a -o "exit [0-9]*" | head -1)
+  key=$(echo "$out" | grep -a -m1 "violation:" | sed 's/.*violation: //' | cut -d'|' -f1-3 | cut -c1-110)
   echo "$id seeded:$name $rc | $key"
 done
